@@ -215,7 +215,7 @@ static void caseNeigh(Rng& r, Ctx& c)
   bool radiusOn = r.coin(0.5);
   double radius = radiusOn ? L * r.loguni(0.35, 1.5) : UNDEF;
   bool coeffs   = r.coin(0.6);
-  if (AVOID_NEIGHMOVING_NDIM2_1D && ndim == 1) coeffs = true;
+  if (ndim == 1 && !coeffs && (AVOID_NEIGHMOVING_NDIM2_1D || !r.coin(0.2))) coeffs = true; // known crash class: 1 in 5 only
   int leaf = 1 + (int)(r.next() % 15);
   c.setSig(fmt("neigh-ball:ndim=%d:nvar=%d:het=%d:sel=%d:radius=%d:coeffs=%d:xvalid=%d:nmaxi=%s", ndim, nvar, het, selA, (int)radiusOn,
                (int)coeffs, (int)xval, nmaxi <= 3 ? "small" : "mid"));
@@ -267,7 +267,10 @@ static void caseNeigh(Rng& r, Ctx& c)
       if (radiusOn && ds[q].first > radius * (1 - 1e-9)) pre = false; // on / beyond the radius: not "admissible" with margin
       if (xval && ds[q].first < 1e-9 * L) pre = false;                  // the cross-validated sample itself is not admissible
     }
-    if (nmaxi < n && (ds[nmaxi].first - ds[nmaxi - 1].first) <= TIE * std::max(ds[nmaxi].first, 1e-300)) tie = true;
+    // tie at the nmaxi boundary. NeighMoving::_moving adds distmax * isel * 1e-9 to the isel-th accepted distance
+    // before sorting ("in order to ensure the sorting results"), i.e. up to n * 1e-9 * (largest distance): two
+    // samples closer than that in distance are a tie for the library, so the exclusion margin must be at least that
+    if (nmaxi < n && (ds[nmaxi].first - ds[nmaxi - 1].first) <= std::max(TIE * ds[nmaxi].first, 20.0 * n * 1e-9 * ds[n - 1].first)) tie = true;
     if (tie) { c.skip("nb-tie"); continue; }
     if (!pre) { c.skip("nb-precondition"); continue; }
     preOK[t] = 1;
